@@ -82,6 +82,12 @@ def gen_calib(rng, tier):
         case = mnet.gen_cycle_case(rng, grid=rng.random() < .12)
     else:
         case = mnet.gen_mn_case(rng, dup=False if kind == "fg" else None)
+    if kind != "bn" and rng.random() < .25:
+        # unnormalised potentials of a very different magnitude (beliefs are only defined up to scale)
+        sc = Fraction(10) ** rng.choice([-9, -6, -4, 3])
+        for f in case["factors"]:
+            f["vals"] = [rs(Fraction(x) * sc) for x in f["vals"]]
+        case["scale"] = rs(sc)
     case["kind"] = kind
     case["op"] = rng.choice(["sum", "sum", "max"])
     case["heur"] = rng.choice([None, None, "H1", "H2", "H3", "H4", "H5", "H6"]) if kind in ("mn", "jt") else None
@@ -102,7 +108,7 @@ def run_calib(case, drv):
             return skip("factor graphs cannot hold two equal factors")
         model = build(case, kind)
         fs = mnet.model_factors(case)
-    tags = dict(kind=kind, op=case["op"], dup=case.get("dup", False), cycle=bool(case.get("cycle") or case.get("shape") == "ring"),
+    tags = dict(kind=kind, op=case["op"], dup=case.get("dup", False), scaled="scale" in case, cycle=bool(case.get("cycle") or case.get("shape") == "ring"),
                 heur=str(case.get("heur")))
     if case.get("heur") and kind in ("mn", "jt"):
         # every triangulation heuristic must return a chordal supergraph (the junction tree is built from it)
